@@ -54,6 +54,9 @@ type checker struct {
 	pulled   int
 	end      hx.EndMode
 	ended    bool // a terminal handler or the fallback ran: nothing may follow
+	// remote is the remote address of the connection as the handlers so far have left it: the client's, or the one
+	// declared by the last wrapping handler that ran
+	remote string
 }
 
 func vio(key, format string, a ...any) *violation {
@@ -69,6 +72,11 @@ func (c *checker) peek() *rx.Event {
 
 // availOK: the bytes a handler finds available are exactly the next received, unconsumed stream bytes.
 func (c *checker) availOK(e *rx.Event) *violation {
+	if c.remote == "" {
+		c.remote = e.Remote
+	} else if e.Remote != c.remote {
+		return vio("stale-connection", "%s was given a connection with remote address %s; the handlers before it left one with %s (a handler continues with the connection the previous one handed on)", e.ID, e.Remote, c.remote)
+	}
 	end := c.consumed + len(e.Avail)
 	if end > len(c.stream) || end > c.pulled || !bytes.Equal(e.Avail, c.stream[c.consumed:end]) {
 		return vio("stream-not-intact", "handler %s found %q available, want a prefix of the unconsumed stream %q (consumed %d, pulled %d)",
@@ -176,6 +184,9 @@ func (c *checker) chain(ch []HS, from int, path string) (int, *violation) {
 				}
 				c.consumed += len(e.Data)
 				c.pos++
+				if h.Wrap {
+					c.remote = rx.WrapAddr(want).String()
+				}
 				continue
 			}
 			if !bytes.Equal(e.Data, rest) {
